@@ -148,6 +148,15 @@ def run(ctx, R, tier):
                         ok = False
                         why = "the session branch stores the instance in `%s`, which is shared between connections" % unparse(t.value)
     R.check(ok, "C09-R3", "_getInstance|session-store-on-connection", "mode session stores only into the connection's table", f.loc(), why)
+    # a newly created single / session instance is remembered: from the creation call every normal path stores it into the mode's table before it is returned
+    rets_all = [n for n in cfg.nodes if n.kind == "stmt" and isinstance(n.ast, ast.Return)]
+    for mode, prefix in (("single", single_table), ("session", conn + ".")):
+        made = [n for c in ctx.calls_to(f, ci.qualname) for n in ctx.node_of(f, c) if cfg.guarded(n, lambda e: edge_has_fact(e, mode_fact(mode)))]
+        stored = [n for st, t, k in stores_in(f.node) if isinstance(t, ast.Subscript) and unparse(t.value).startswith(prefix) for n in cfg.nodes_for(st)]
+        okm = bool(made) and bool(stored) and cfg.all_paths_pass(made, lambda n: n in stored, edge_ok=lambda e: e.kind != "exc", targets=rets_all + [cfg.exit])
+        R.check(okm, "C09-R3" if mode == "session" else "C09-R2", "_getInstance|%s-instance-remembered" % mode, "a freshly created %s instance is stored in its table before it is returned" % mode,
+                f.loc(), "mode %s can create an instance and return it without storing it: the next call creates another one (one per call instead of one per %s)" % (
+                    mode, "daemon" if mode == "single" else "connection"))
     cl = ctx.fn("Pyro5.socketutil.SocketConnection.close")
     resets = [st for st, t, k in stores_in(cl.node) if unparse(t) == "self.pyroInstances" and isinstance(st.value, (ast.Dict, ast.Call))]
     clears = [c for c, _ in ctx.cg.calls_of(cl) if unparse(c.func) == "self.pyroInstances.clear"]
